@@ -88,11 +88,12 @@ func init() {
 		Property: "C12",
 		Parts: []simkit.Part{
 			{Name: "execsim-c12", Fn: execsim.C12, Runs: map[string]int{"quick": 40000, "thorough": 2000000}},
+			{Name: "clisim-c12", Fn: clisim.C12CLI, ProcessLevel: true, NeedsCLI: true, Runs: map[string]int{"quick": 400, "thorough": 12000}},
 		},
 		Rule:           "one run = victim file of 1-5 statements (optional complete predecessor / pending successor), partially applied to progress k by an injected persistent statement failure, then one edit (change/insert/delete/swap/truncate/append at a drawn index, truncation may go below k), re-hash, apply, apply again; distinct = distinct trace hash",
 		RequiredProbes: []string{"partial-with-applied-statements", "edit-touches-applied-part", "fewer-statements-than-applied", "edit-of-unapplied-tail", "tail-edit-changes-length"},
-		RequiredFaults: []string{"stmt-persistent"},
-		Real:           []string{"migrate.Executor (Pending, Execute: partial-hash comparison, resume)", "migrate.MemDir, HashFile, statement scanner"},
+		RequiredFaults: []string{"stmt-persistent", "stmt-failure"},
+		Real:           []string{"clisim part: the whole CLI binary + SQLite (migrate apply --tx-mode none, migrate hash)", "migrate.Executor (Pending, Execute: partial-hash comparison, resume)", "migrate.MemDir, HashFile, statement scanner"},
 		Stub:           []string{"database (SimDriver)", "revision store (SimRevs)"},
 		Assumptions:    []string{"history 'untouched' is compared without the label fields ExecutedAt, ExecutionTime, OperatorVersion"},
 		SimTimeUnit:    "executor calls",
